@@ -200,8 +200,7 @@ fn format_case(seed: u64, run: u64, out: &mut RunOut) {
     let bs_bits = bs_bits.min(cb);
     let bs = 1usize << bs_bits;
     let l2cover = (cs / 8) * cs;
-    // supported sizes: L1 <= 32 MiB, and the initial metadata fits the one
-    // refcount block the formatter creates
+    // supported sizes: L1 <= 32 MiB
     let rbe = cs * 8 / (1u64 << ro);
     let max_l1_entries = (32u64 << 20) / 8;
     let mut vsize = match rng.below(6) {
@@ -225,14 +224,8 @@ fn format_case(seed: u64, run: u64, out: &mut RunOut) {
     let rt_bytes = (rt_entries * 8).div_ceil(bs as u64) * bs as u64;
     let rt_clusters = rt_bytes.min(8 << 20).div_ceil(cs);
     if 1 + rt_clusters + 1 + l1_clusters > rbe {
-        // the formatter's single refcount block cannot count its own
-        // metadata: outside the supported range, shrink
-        vsize = (l2cover).min(vsize);
-        let l1c = (vsize.div_ceil(l2cover) * 8).div_ceil(cs);
-        if 1 + 1 + 1 + l1c > rbe {
-            out.stats.insert("format_unsupported_skipped".into(), 1);
-            return;
-        }
+        // the initial metadata needs more than one refcount block
+        out.stats.insert("format_multi_refblock".into(), 1);
     }
     out.geo = format!("fmt-cb{cb}-ro{ro}-bs{bs_bits}");
     out.cfg_hash = hash_str(&format!("{cb}/{ro}/{bs_bits}/{vsize}"));
